@@ -32,7 +32,8 @@ def evaluate():
         for c in fn.calls:
             if C20.is_hash_iteration(c):
                 hi.add(_owner(fn))
-    res["hash-iter"] = (hi, {"bad_hash_order"})
+    res["hash-iter"] = (hi, {"bad_hash_order", "bad_loop_carried", "ok_loop_collected"})
+    res["loop-carried"] = ({_owner(X.fns[fid]) for fid in reach if C20.loop_carried_values(X.fns[fid])}, {"bad_loop_carried"})
     # panic census: sites that are not auto-discharged
     ps = set()
     for s in census.panic_sites(X, reach):
